@@ -198,21 +198,29 @@ func (s *Stats) Merge(o *Stats) {
 // Replay files
 
 type ReplayFile struct {
-	Property    string      `json:"property"`
-	Clause      string      `json:"clause"`
-	Detail      string      `json:"detail"`
-	Seed        uint64      `json:"seed"`
-	Phase       PhaseCfg    `json:"phase"`
-	PhaseIdx    int         `json:"phase_index"`
-	CaseIdx     int         `json:"case_index"`
-	Tape        []uint64    `json:"tape"`
-	Shrunk      bool        `json:"shrunk"`
-	ShrinkExecs int         `json:"shrink_execs"`
-	Case        interface{} `json:"case"`
-	Expected    interface{} `json:"expected,omitempty"`
-	Observed    interface{} `json:"observed,omitempty"`
-	Crash       string      `json:"crash,omitempty"` // for process-level failures: "died" | "hung"
-	CrashLog    string      `json:"crash_log,omitempty"`
+	Property    string       `json:"property"`
+	Clause      string       `json:"clause"`
+	Detail      string       `json:"detail"`
+	Seed        uint64       `json:"seed"`
+	Phase       PhaseCfg     `json:"phase"`
+	PhaseIdx    int          `json:"phase_index"`
+	CaseIdx     int          `json:"case_index"`
+	Tape        []uint64     `json:"tape"`
+	Shrunk      bool         `json:"shrunk"`
+	ShrinkExecs int          `json:"shrink_execs"`
+	Case        interface{}  `json:"case"`
+	Expected    interface{}  `json:"expected,omitempty"`
+	Observed    interface{}  `json:"observed,omitempty"`
+	History     *HistorySpec `json:"history,omitempty"` // the violation needs the cases the worker ran before it (state accumulated in the process)
+	Crash       string       `json:"crash,omitempty"`   // for process-level failures: "died" | "hung"
+	CrashLog    string       `json:"crash_log,omitempty"`
+}
+
+// HistorySpec: replay = run, in one fresh process, the cases worker W of N ran (in its order) up to and including this one.
+type HistorySpec struct {
+	Tier    string `json:"tier"`
+	Worker  int    `json:"worker"`
+	Workers int    `json:"workers"`
 }
 
 func mustJSON(v interface{}) string {
